@@ -87,7 +87,7 @@ type c17State struct {
 	hist []c17Ev
 
 	want    map[string]map[string]map[string]bool // class -> iface -> cidr
-	foreign map[string]string                      // mock route key -> rendering
+	foreign map[string]string                     // mock route key -> rendering
 	nextIdx int
 
 	routeDrift bool
@@ -107,14 +107,14 @@ type c17State struct {
 	crashes      int
 	graceOver    bool // (probes) the clock was moved past the clean-up grace period
 
-	key, out     string
-	nontriv      bool
-	evOut        string
-	evNontriv    bool
-	bad          []hbfs.Fail
-	badSeen      map[string]bool
-	lastErr      error
-	lastCalls    []string
+	key, out  string
+	nontriv   bool
+	evOut     string
+	evNontriv bool
+	bad       []hbfs.Fail
+	badSeen   map[string]bool
+	lastErr   error
+	lastCalls []string
 }
 
 func (s *c17State) fail(key, f string, a ...any) {
@@ -134,18 +134,18 @@ type c17NL struct {
 }
 
 var c17Flags = map[string]mocknetlink.FailFlags{
-	"NewNetlink/err":        mocknetlink.FailNextNewNetlink,
-	"SetSocketTimeout/err":  mocknetlink.FailNextSetSocketTimeout,
-	"SetStrict/err":         mocknetlink.FailNextSetStrict,
-	"LinkList/err":          mocknetlink.FailNextLinkList,
-	"LinkList/eintr":        mocknetlink.FailNextLinkListWrappedEINTR,
-	"LinkByName/err":        mocknetlink.FailNextLinkByName,
-	"LinkByName/notfound":   mocknetlink.FailNextLinkByNameNotFound,
-	"RouteList/err":         mocknetlink.FailNextRouteList,
-	"RouteList/eintr":       mocknetlink.FailNextRouteListEINTR,
-	"RouteList/wrapped":     mocknetlink.FailNextRouteListWrappedEINTR,
-	"RouteReplace/err":      mocknetlink.FailNextRouteReplace,
-	"RouteDel/err":          mocknetlink.FailNextRouteDel,
+	"NewNetlink/err":       mocknetlink.FailNextNewNetlink,
+	"SetSocketTimeout/err": mocknetlink.FailNextSetSocketTimeout,
+	"SetStrict/err":        mocknetlink.FailNextSetStrict,
+	"LinkList/err":         mocknetlink.FailNextLinkList,
+	"LinkList/eintr":       mocknetlink.FailNextLinkListWrappedEINTR,
+	"LinkByName/err":       mocknetlink.FailNextLinkByName,
+	"LinkByName/notfound":  mocknetlink.FailNextLinkByNameNotFound,
+	"RouteList/err":        mocknetlink.FailNextRouteList,
+	"RouteList/eintr":      mocknetlink.FailNextRouteListEINTR,
+	"RouteList/wrapped":    mocknetlink.FailNextRouteListWrappedEINTR,
+	"RouteReplace/err":     mocknetlink.FailNextRouteReplace,
+	"RouteDel/err":         mocknetlink.FailNextRouteDel,
 }
 
 var c17Modes = map[string][]string{
